@@ -91,6 +91,8 @@ def rows_case(draw):
         st.tuples(st.just("append_list"), row),
         st.tuples(st.just("append_dict"), row, st.permutations(list(range(ncol)))),
         st.tuples(st.just("sort"), st.integers(0, ncol - 1), st.booleans()),
+        # a row the collector has to refuse (one value short, one too many): it must leave the rows as they were
+        st.tuples(st.just("bad_append"), row, st.sampled_from(["short", "long"])),
     )
     init = draw(st.lists(row, max_size=4))
     ops = draw(st.lists(op, min_size=1, max_size=16))
@@ -365,6 +367,16 @@ def check_rows(case, v):
                                              f"(columns {names}, lazy={case['lazy']})")
             model.append(list(op[1]))
             v.label("dict_row")
+        elif op[0] == "bad_append":
+            bad = list(op[1])[:-1] if op[2] == "short" else list(op[1]) + [op[1][0]]
+            try:
+                rc.append(bad)
+            except Exception:
+                v.label("refused_row_" + op[2])
+                nt = True
+            else:
+                return v.fail("rows-accepted", f"step {step}: append({bad!r}) to {len(names)} column(s) was accepted "
+                                               f"(rows now {current_rows()[0]!r})")
         elif op[0] == "sort":
             col, rev = op[1], op[2]
             try:
